@@ -1082,6 +1082,8 @@ def i_wait(seg, p, fr, args, reg):
         p.guard.append(z3.Not(p.get(parked)))
         p.guard.append(p.get(mu) == BV(0))
         p.set(mu, BV(p.tid + 1))
+        wk = m.var('ghost.woken')
+        p.set(wk, p.get(wk) - BV(1))
         p.holding = 'vW.mu'
         fr.idx += 1
         return
@@ -1108,11 +1110,19 @@ def i_signal(seg, p, fr, args, reg):
         ok = z3.Or(ok, sel)
         p.set(pk, z3.And(p.get(pk), z3.Not(sel)))
     p.choice_cons.append(z3.Or(z3.Not(anyp), ok))
+    # ghost: runners woken by a Signal/Broadcast that have not resumed yet
+    wk = m.var('ghost.woken')
+    p.set(wk, p.get(wk) + z3.If(anyp, BV(1), BV(0)))
     fr.idx += 1
 
 @intrinsic('(*sync.Cond).Broadcast')
 def i_broadcast(seg, p, fr, args, reg):
     m = seg.m
+    wk = m.var('ghost.woken')
+    cnt = p.get(wk)
+    for t in range(m.nthreads):
+        cnt = cnt + z3.If(p.get(m.var('T%d.parked' % t, 'bool')), BV(1), BV(0))
+    p.set(wk, cnt)
     for t in range(m.nthreads):
         p.set(m.var('T%d.parked' % t, 'bool'), z3.BoolVal(False))
     fr.idx += 1
@@ -1451,8 +1461,14 @@ def i_yield(seg, p, fr, args, reg):
     seg.cut(p)
 
 def expected_value(seg, p, k):
-    # the value the single invocation for key k returns: k*16 + 1
-    return to_bv(k) * BV(8) + BV(1)
+    # the value the single invocation for key k returns: k*8 + 1, or nil if the solver made it a nil-returning function
+    nr = ite_sel(k, [seg.m.const('NR_%d' % a) for a in range(seg.cfg['keys'])])
+    return z3.If(nr, BV(NIL), to_bv(k) * BV(8) + BV(1))
+
+@intrinsic('vNilResult')
+def i_nilres(seg, p, fr, args, reg):
+    seg.setreg(p, fr, reg, ite_sel(args[0], [seg.m.const('NR_%d' % a) for a in range(seg.cfg['keys'])]))
+    fr.idx += 1
 
 @intrinsic('vGotDo')
 def i_gotdo(seg, p, fr, args, reg):
@@ -1713,6 +1729,8 @@ def main():
         m.var('T%d.done' % t, 'bool')
         m.var('T%d.parked' % t, 'bool')
     m.var('spawned')
+    if args.mode == 'work':
+        m.var('ghost.woken')
     if args.mode == 'wos':
         m.var('proc.running', 'bool', init=z3.BoolVal(True))
         for n in ('ctx.done', 'proc.waited', 'proc.interrupted', 'proc.killed', 'proc.hit', 'proc.sigok', 'proc.intsent', 'proc.killsent', 'proc.sigdeath',
@@ -1803,6 +1821,16 @@ def main():
         en = info[k]['enabled']
         dl.append(z3.And(z3.Not(z3.Or(*en)), z3.Not(all_done(states[k]))))
     rb, mb = check('deadlock', z3.And(z3.Or(*dl), *live), 'unsat')
+    # (b2) lost wake-up (work): while the mutex is free, a runner sleeps although more items are queued
+    # than runners have been woken and are on their way
+    rl, ml = z3.unsat, None
+    if args.mode == 'work':
+        lw = []
+        for k in range(K + 1):
+            st = states[k]
+            anyparked = z3.Or(*[z3.And(st['T%d.active' % t], st['T%d.parked' % t]) for t in range(m.nthreads)])
+            lw.append(z3.And(st['vW.mu'] == BV(0), anyparked, z3.ULT(st['ghost.woken'], st['vW.todo.len'])))
+        rl, ml = check('lost-wakeup', z3.Or(*lw), 'unsat')
     # (c) unwinding assertion: after K steps everything has finished
     rc, mc = check('unwinding', z3.And(z3.Not(all_done(states[K])), *live), 'unsat')
     # (d) witness: a complete run exists in which something happened
@@ -1832,7 +1860,7 @@ def main():
 
     status = 'ok'
     violation = None
-    for name, r, mdl in (('safety', ra, ma), ('deadlock', rb, mb), ('data-race', re, me)):
+    for name, r, mdl in (('safety', ra, ma), ('deadlock', rb, mb), ('lost-wakeup', rl, ml), ('data-race', re, me)):
         if r == z3.sat:
             status = 'violation'
             violation = describe(m, states, info, mdl, name, K)
@@ -1904,7 +1932,15 @@ def describe(m, states, info, mdl, kind, K):
             elif ins['op'] == 'Call' and ins.get('attrs', {}).get('invoke'):
                 opname = 'Call invoke:' + ins['attrs']['invoke']
             entry = len(loc[0]) == 1 and fr[1] == 0 and fr[2] == 0
-        trace.append({'step': k, 'goroutine': t, 'loc': pc, 'at': where, 'op': opname, 'entry': entry, 'choices': chs, 'choices_used': used, 'fired': fired})
+        obs = {}
+        nxt_st = states[k + 1]
+        for n in ('vW.mu', 'vW.todo.len', 'vW.waiting', 'ghost.woken'):
+            if n in nxt_st:
+                obs[n] = str(ev(nxt_st[n]))
+        pk = [tt for tt in range(m.nthreads) if ('T%d.parked' % tt) in nxt_st and z3.is_true(ev(nxt_st['T%d.parked' % tt]))]
+        if pk:
+            obs['parked'] = pk
+        trace.append({'step': k, 'goroutine': t, 'loc': pc, 'at': where, 'op': opname, 'entry': entry, 'choices': chs, 'choices_used': used, 'fired': fired, 'after': obs})
     final = {}
     last = states[min(len(trace), K)]
     for n in m.order:
